@@ -1684,6 +1684,13 @@ func isRecoverSig(sig *types.Signature) bool {
 // sequence term for the functor ','/2. (Existence only: that the re-association is right is not decided.)
 
 func ruleSeqFlatten(c *Ctx, r *Report) {
+	// Second version (after seed C03c, which still inspected the left operand but yielded ITS left part
+	// uninspected): every value the iterator stores as its current element is proven not to be a
+	// conjunction. For a stored value v the tests "is v a ','/2 compound" are located (type assertion ok,
+	// Functor() ==/!= ',', Arity() ==/!= 2 on the resolved v); the store must be unreachable from the entry,
+	// within one iteration (back edges cut), once the edges that say "not a conjunction" are removed - i.e.
+	// it is reached only when one of the tests failed. A stored X.Arg(0) needs such tests on the resolved
+	// X.Arg(0).
 	const rule = "R-SEQ-FLATTEN"
 	next := c.method("seqIterator", "Next")
 	comma := c.global("atomComma")
@@ -1692,47 +1699,348 @@ func ruleSeqFlatten(c *Ctx, r *Report) {
 		r.undecided(rule, "anchor", "-", "locate seqIterator.Next, atomComma, Env.Resolve", "not found")
 		return
 	}
-	desc := "the sequence iterator inspects the left operand of a conjunction for a nested conjunction"
-	var hit ssa.Instruction
-	ncmp := 0
-	eachInstr(next, func(in ssa.Instruction) {
-		bo, ok := in.(*ssa.BinOp)
-		if !ok || (bo.Op != token.EQL && bo.Op != token.NEQ) {
-			return
+	type cond struct {
+		v   ssa.Value
+		neg int // successor index that implies "not a conjunction"
+	}
+	conds := map[ssa.Value][]cond{} // receiver (the Compound-typed value) -> tests
+	strip := func(v ssa.Value) ssa.Value {
+		for {
+			switch x := v.(type) {
+			case *ssa.MakeInterface:
+				v = x.X
+			case *ssa.ChangeInterface:
+				v = x.X
+			default:
+				return v
+			}
 		}
-		for _, pair := range [][2]ssa.Value{{bo.X, bo.Y}, {bo.Y, bo.X}} {
-			fc, ok := pair[0].(*ssa.Call)
-			if !ok || !fc.Call.IsInvoke() || fc.Call.Method.Name() != "Functor" {
-				continue
+	}
+	eachInstr(next, func(in ssa.Instruction) {
+		switch x := in.(type) {
+		case *ssa.BinOp:
+			if x.Op != token.EQL && x.Op != token.NEQ {
+				return
 			}
-			ld, ok := pair[1].(*ssa.UnOp)
-			if !ok || ld.Op != token.MUL || ld.X != ssa.Value(comma) {
-				continue
+			for _, pair := range [][2]ssa.Value{{x.X, x.Y}, {x.Y, x.X}} {
+				fc, ok := pair[0].(*ssa.Call)
+				if !ok || !fc.Call.IsInvoke() {
+					continue
+				}
+				isTest := false
+				switch fc.Call.Method.Name() {
+				case "Functor":
+					if ld, ok := pair[1].(*ssa.UnOp); ok && ld.Op == token.MUL && ld.X == ssa.Value(comma) {
+						isTest = true
+					}
+				case "Arity":
+					if k, ok := constInt(pair[1]); ok && k == 2 {
+						isTest = true
+					}
+				}
+				if isTest {
+					neg := 1
+					if x.Op == token.NEQ {
+						neg = 0
+					}
+					conds[fc.Call.Value] = append(conds[fc.Call.Value], cond{x, neg})
+				}
 			}
-			ncmp++
-			// receiver <- (type assertion of) Resolve(X.Arg(0))
-			for _, l := range c.originSet(fc.Call.Value) {
+		case *ssa.Extract:
+			if ta, ok := x.Tuple.(*ssa.TypeAssert); ok && x.Index == 1 && ta.CommaOk {
+				// receiver = the extract #0 of the same assertion
+				if refs := ta.Referrers(); refs != nil {
+					for _, ref := range *refs {
+						if e0, ok := ref.(*ssa.Extract); ok && e0.Index == 0 {
+							conds[e0] = append(conds[e0], cond{x, 1})
+						}
+					}
+				}
+			}
+		}
+	})
+	// the inspected value for "R.Arg(0)": extract0(TypeAssert(Resolve(R.Arg(0))))
+	inspectedArg0 := func(recv ssa.Value) ssa.Value {
+		var out ssa.Value
+		eachInstr(next, func(in ssa.Instruction) {
+			e0, ok := in.(*ssa.Extract)
+			if !ok || e0.Index != 0 {
+				return
+			}
+			ta, ok := e0.Tuple.(*ssa.TypeAssert)
+			if !ok {
+				return
+			}
+			for _, l := range c.originSet(ta.X) {
 				rc, _ := callOfValue(l)
 				if rc == nil || rc.Call.StaticCallee() != resolve || len(rc.Call.Args) < 2 {
 					continue
 				}
 				for _, l2 := range c.originSet(rc.Call.Args[1]) {
 					ac, _ := callOfValue(l2)
-					if ac == nil || !ac.Call.IsInvoke() || ac.Call.Method.Name() != "Arg" || len(ac.Call.Args) != 1 {
+					if ac == nil || !ac.Call.IsInvoke() || ac.Call.Method.Name() != "Arg" || len(ac.Call.Args) != 1 || ac.Call.Value != recv {
 						continue
 					}
 					if k, ok := constInt(ac.Call.Args[0]); ok && k == 0 {
-						hit = in
+						out = e0
 					}
 				}
 			}
+		})
+		return out
+	}
+	desc := "whatever the sequence iterator yields as one element is not a conjunction (a conjunction, on either side, is part of the sequence)"
+	n := 0
+	eachInstr(next, func(in ssa.Instruction) {
+		st, ok := in.(*ssa.Store)
+		if !ok {
+			return
+		}
+		fa, ok := st.Addr.(*ssa.FieldAddr)
+		if !ok || fieldName(fa) != "current" {
+			return
+		}
+		n++
+		key := fmt.Sprintf("%s/current#%d", fname(next), n)
+		v := strip(st.Val)
+		var T ssa.Value
+		what := valName(v)
+		if ac, ok := v.(*ssa.Call); ok && ac.Call.IsInvoke() && ac.Call.Method.Name() == "Arg" {
+			T = inspectedArg0(ac.Call.Value)
+			if k, isK := constInt(ac.Call.Args[0]); !isK || k != 0 {
+				T = nil
+			}
+			if T == nil {
+				r.bad(rule, fmt.Sprintf("%s/current=%s", fname(next), stableName(v)), c.at(in), desc, "the element "+what+" is yielded without its resolved value having been tested for ','/2: if it is a conjunction it is compiled as a call of ','/2, in which a cut is local")
+				return
+			}
+		} else {
+			T = v
+			if _, has := conds[T]; !has {
+				// the interface value before a failed assertion (default arm of the type switch)
+				eachInstr(next, func(in2 ssa.Instruction) {
+					if e0, ok := in2.(*ssa.Extract); ok && e0.Index == 0 {
+						if ta, ok := e0.Tuple.(*ssa.TypeAssert); ok && ta.X == v && isNamedIn(ta.AssertedType, enginePkgPath, "Compound") {
+							T = e0
+						}
+					}
+				})
+			}
+		}
+		cs := conds[T]
+		if len(cs) == 0 {
+			r.bad(rule, fmt.Sprintf("%s/current=%s", fname(next), stableName(v)), c.at(in), desc, "no test of "+what+" for ','/2 found")
+			return
+		}
+		reach := reachableFromAvoiding(next.Blocks[0], st.Block(), func(from *ssa.BasicBlock, i int, cnd ssa.Value) bool {
+			if from.Succs[i].Dominates(from) {
+				return true // back edge: one iteration at a time
+			}
+			for _, k := range cs {
+				if cnd == k.v && i == k.neg {
+					return true
+				}
+			}
+			return false
+		})
+		// unconditional back edges (jump blocks) are not offered to cut: check them separately
+		if reach {
+			reach = seqReachNoBack(next.Blocks[0], st.Block(), func(from *ssa.BasicBlock, i int) bool {
+				cnd := ifCond(from)
+				for _, k := range cs {
+					if cnd == k.v && i == k.neg {
+						return true
+					}
+				}
+				return false
+			})
+		}
+		if reach {
+			r.bad(rule, fmt.Sprintf("%s/current=%s", fname(next), stableName(v)), c.at(in), desc, "the store is reachable on a path on which every test says that "+what+" IS a conjunction")
+		} else {
+			r.ok(rule, key, c.at(in), desc, fmt.Sprintf("reached only across an edge on which one of the %d tests for ','/2 failed", len(cs)), true)
 		}
 	})
-	key := fname(next) + "/left-operand"
-	if hit != nil {
-		r.ok(rule, key, c.at(hit), desc, "the functor of the resolved Arg(0) is compared with ','", true)
-	} else {
-		r.bad(rule, key, c.Pos(next.Pos()), desc, fmt.Sprintf("none of the %d comparisons with ',' looks at the left operand: ((A, !), B) yields (A, !) as one goal, compiled as a call of ','/2 in which the cut is local", ncmp))
+	if n == 0 {
+		r.bad(rule, fname(next)+"/current", c.Pos(next.Pos()), desc, "no store to the current element found")
 	}
-	r.analysed(rule, fname(next))
+	r.analysed(rule, fname(next), fmt.Sprintf("%d stores to the current element", n))
+}
+
+// seqReachNoBack: plain DFS from start to target that never follows a back edge (successor dominating its
+// source) and never follows an edge rejected by cut.
+func seqReachNoBack(start, target *ssa.BasicBlock, cut func(from *ssa.BasicBlock, succIdx int) bool) bool {
+	seen := map[*ssa.BasicBlock]bool{}
+	var dfs func(b *ssa.BasicBlock) bool
+	dfs = func(b *ssa.BasicBlock) bool {
+		if b == target {
+			return true
+		}
+		if seen[b] {
+			return false
+		}
+		seen[b] = true
+		for i, s := range b.Succs {
+			if s.Dominates(b) || cut(b, i) {
+				continue
+			}
+			if dfs(s) {
+				return true
+			}
+		}
+		return false
+	}
+	return dfs(start)
+}
+
+// ---------------------------------------------------------------------------
+// R-DONE-REPORTS (C13; added after seed C13c): "cancelling the context stops the execution" is observed by
+// the host as ctx.Err(). A function of the library that itself observes cancellation - a receive, or a
+// select case, on ctx.Done() - reports it as the context's error: on every path from that case to the
+// function's exits there is a call of Err() on a context (whose value is returned or recorded). A helper
+// that folds "the context is done" into a boolean that also means something else ("the consumer closed")
+// loses the reason; before the search has started nobody downstream looks at the context again, and a
+// cancelled query is reported as "no solutions".
+
+func ruleDoneReports(c *Ctx, r *Report) {
+	const rule = "R-DONE-REPORTS"
+	desc := "a function that observes ctx.Done() reports the cancellation as the context's error"
+	isDone := func(v ssa.Value) bool {
+		for _, l := range c.originSet(v) {
+			if call, ok := l.(*ssa.Call); ok && call.Call.IsInvoke() && call.Call.Method.Name() == "Done" && isContextType(call.Call.Value.Type()) {
+				return true
+			}
+		}
+		return false
+	}
+	isErrCall := func(in ssa.Instruction) bool {
+		call, ok := in.(*ssa.Call)
+		return ok && call.Call.IsInvoke() && call.Call.Method.Name() == "Err" && isContextType(call.Call.Value.Type())
+	}
+	isExit := func(in ssa.Instruction) bool {
+		_, ok := in.(*ssa.Return)
+		return ok
+	}
+	n := 0
+	for _, fn := range c.LibFuncs() {
+		seen := 0
+		eachInstr(fn, func(in ssa.Instruction) {
+			var start ssa.Instruction
+			switch x := in.(type) {
+			case *ssa.UnOp:
+				if x.Op == token.ARROW && isDone(x.X) {
+					start = in
+				}
+			case *ssa.Select:
+				for k, st := range x.States {
+					if st.Dir != types.RecvOnly || !isDone(st.Chan) {
+						continue
+					}
+					// the block taken when the select's index equals k
+					if refs := x.Referrers(); refs != nil {
+						for _, ref := range *refs {
+							ex, ok := ref.(*ssa.Extract)
+							if !ok || ex.Index != 0 || ex.Referrers() == nil {
+								continue
+							}
+							for _, r2 := range *ex.Referrers() {
+								bo, ok := r2.(*ssa.BinOp)
+								if !ok || bo.Op != token.EQL {
+									continue
+								}
+								if kk, ok := constInt(bo.Y); !ok || int(kk) != k {
+									continue
+								}
+								if iff, ok := bo.Block().Instrs[len(bo.Block().Instrs)-1].(*ssa.If); ok && iff.Cond == ssa.Value(bo) && len(bo.Block().Succs[0].Instrs) > 0 {
+									start = bo.Block().Succs[0].Instrs[0]
+								}
+							}
+						}
+					}
+				}
+			}
+			if start == nil {
+				return
+			}
+			n++
+			seen++
+			key := fmt.Sprintf("%s/done#%d", fname(fn), seen)
+			var miss ssa.Instruction
+			switch {
+			case isErrCall(start):
+			case isExit(start):
+				miss = start
+			default:
+				miss = instrReachAvoid(start, isExit, isErrCall)
+			}
+			if miss == nil {
+				r.ok(rule, key, c.at(in), desc, "every path from the Done case to an exit passes through ctx.Err()", true)
+			} else {
+				r.bad(rule, fmt.Sprintf("%s/done", fname(fn)), c.at(miss), desc, "this exit is reached from the Done case without ctx.Err(): the reason (cancelled / deadline exceeded) is lost and the caller takes the result for something else")
+			}
+		})
+	}
+	if n == 0 {
+		r.bad(rule, "scan/done", "-", desc, "no function of the library observes ctx.Done(): cancellation cannot stop anything")
+	}
+	r.analysed(rule, fmt.Sprintf("%d observations of ctx.Done() in the library", n))
+}
+
+// ---------------------------------------------------------------------------
+// R-UNWIND-POPPED (C04; added after seed C04c): the handlers consulted for an error are those of the frames
+// on the stack. The trampoline re-pushes a frame before it pushes the frame's child, so when an error
+// promise is POPPED, its parent and all ancestors are below it. Unwinding is therefore started only for an
+// error found in a popped promise: the argument of the stack's recover is the err field of a value
+// obtained from the stack's pop. Starting to unwind with the error of a child that was never pushed skips
+// the parent - which has just been popped and not pushed back - and with it the handler it may carry (the
+// marker frame of an exited catch/3, or the frame of catch/3 itself when Goal is not callable).
+
+func ruleUnwindPopped(c *Ctx, r *Report) {
+	const rule = "R-UNWIND-POPPED"
+	tr := c.trampoline()
+	rec := c.method("promiseStack", "recover")
+	pop := c.method("promiseStack", "pop")
+	if tr == nil || rec == nil || pop == nil {
+		r.undecided(rule, "anchor", "-", "locate the trampoline and the stack's recover/pop", "not found")
+		return
+	}
+	desc := "unwinding starts only from an error promise popped off the stack (its ancestors are below it)"
+	n := 0
+	eachInstr(tr, func(in ssa.Instruction) {
+		call, ok := in.(*ssa.Call)
+		if !ok || call.Call.StaticCallee() != rec || len(call.Call.Args) < 2 {
+			return
+		}
+		n++
+		key := fmt.Sprintf("%s/recover#%d", fname(tr), n)
+		good := true
+		why := ""
+		for _, l := range c.originSet(call.Call.Args[1]) {
+			ld, ok := l.(*ssa.UnOp)
+			if !ok || ld.Op != token.MUL {
+				good, why = false, valName(l)
+				continue
+			}
+			fa, ok := ld.X.(*ssa.FieldAddr)
+			if !ok || fieldName(fa) != "err" {
+				good, why = false, valName(l)
+				continue
+			}
+			for _, b := range c.originSet(fa.X) {
+				cl, _ := callOfValue(b)
+				if cl == nil || cl.Call.StaticCallee() != pop {
+					good, why = false, valName(b)+".err"
+				}
+			}
+		}
+		if good {
+			r.ok(rule, key, c.at(in), desc, "the error handed to recover is the err field of the popped promise", true)
+		} else {
+			r.bad(rule, fmt.Sprintf("%s/recover", fname(tr)), c.at(in), desc, "unwinding is started with "+why+", which was not popped off the stack: its parent has been popped and not pushed back, so the parent's handler is skipped")
+		}
+	})
+	if n == 0 {
+		r.bad(rule, fname(tr)+"/recover", c.Pos(tr.Pos()), desc, "the trampoline never starts unwinding")
+	}
+	r.analysed(rule, fname(tr))
 }
